@@ -94,6 +94,7 @@ def fsum(xs):
 # ============================================================================= eval
 
 WIDTHS = [127, 128, 255, 256, 257]
+BLOCKS = [7, 8, 9, 15, 16, 17, 20, 31, 32, 33, 40, 63, 64, 65, 129]
 
 
 def gen_eval(rng, idx):
@@ -105,6 +106,12 @@ def gen_eval(rng, idx):
             E, K = rng.choice(WIDTHS), rng.choice([1, 2, 3])
         else:
             E, K = rng.choice([1, 2, 3]), rng.choice(WIDTHS)
+    blocks = (not boundary) and rng.random() < 0.15
+    if blocks:       # numbers of posterior samples / experiments straddling the usual blocking factors (8, 16, 32, 64, 128)
+        if rng.random() < 0.6:
+            K = rng.choice(BLOCKS)
+        else:
+            E = rng.choice(BLOCKS)
     big = rng.random() < 0.1
     val = (lambda: rng.uniform(-1e6, 1e6)) if big else (lambda: rng.random())
     preds = [[val() for _ in range(K)] for _ in range(E)]
@@ -142,10 +149,98 @@ def gen_eval(rng, idx):
     if rng.random() < 0.08:
         bad = rng.choice(["obs", "chains", "names"])
     return {"kind": "eval", "idx": idx, "preds": [[fb(x) for x in r] for r in preds], "obs": [fb(x) for x in obs], "chains": chains,
-            "names": names, "bad": bad, "E": E, "K": K, "mode": mode, "layout": layout, "boundary": boundary}
+            "names": names, "bad": bad, "E": E, "K": K, "mode": mode, "layout": layout, "boundary": boundary, "blocks": blocks,
+            "verbose": idx % 6 == 0 or boundary or blocks}
+
+
+def _build_eval(case):
+    E, K = case["E"], case["K"]
+    preds = np.array([[S.from_bits(b) for b in r] for r in case["preds"]], dtype=float).reshape(E, K)
+    obs = np.array([S.from_bits(b) for b in case["obs"]], dtype=float)
+    return preds, obs, np.array(case["chains"], dtype=int), np.array(case["names"], dtype=str)
+
+
+def quick_results(case):
+    """the outputs of a case's stream on fresh objects, as bits / error classes -- for the verbose-vs-default comparison"""
+    out = {}
+
+    def put(name, f):
+        try:
+            with np.errstate(all="ignore"):
+                v = f()
+            out[name] = v
+        except Exception as e:  # noqa
+            out[name] = S.err_tok(e)
+
+    k = case.get("kind")
+    if k == "eval" and not case.get("bad"):
+        from batchie.models.main import ModelEvaluation
+        preds, obs, chains, names = _build_eval(case)
+        ev = ModelEvaluation(predictions=preds, observations=obs, chain_ids=chains, sample_names=names)
+        put("mse", lambda: fb(ev.mse()))
+        put("mse_variance", lambda: fb(ev.mse_variance()))
+        put("inter_chain_mse_variance", lambda: fb(ev.inter_chain_mse_variance()))
+        put("mean_predictions", lambda: np.asarray(ev.mean_predictions, dtype=float).tobytes())
+        out["inputs"] = (preds.tobytes(), obs.tobytes(), chains.tobytes(), names.tobytes())
+    elif k == "effects":
+        from batchie.data import create_single_treatment_effect_map, create_single_treatment_effect_array
+        from batchie.synergy import calculate_synergy
+        n, a = len(case["sids"]), case["arity"]
+        sids = np.array(case["sids"], dtype=int)
+        tids = np.array(case["tids"], dtype=int).reshape(n, a)
+        obs = np.array([S.from_bits(b) for b in case["obs"]], dtype=float)
+        put("effect_map", lambda: [(int(k_[0]), int(k_[1]), fb(v)) for k_, v in
+                                   create_single_treatment_effect_map(sample_ids=sids, treatment_ids=tids, observation=obs).items()])
+        put("effect_array", lambda: np.asarray(create_single_treatment_effect_array(sample_ids=sids, treatment_ids=tids, observation=obs), dtype=float).tobytes())
+        if a == 2 and all(any(x != -1 for x in r) for r in case["tids"]):
+            for strict in (False, True):
+                put("synergy_strict%d" % strict, lambda strict=strict: tuple(np.asarray(x).tolist() for x in
+                                                                               calculate_synergy(sample_ids=sids, treatment_ids=tids, observation=obs, strict=strict)))
+        out["inputs"] = (sids.tobytes(), tids.tobytes(), obs.tobytes())
+    elif k in ("cmse", "space"):
+        from batchie.retrospective import calculate_mse
+        from batchie.models.main import correlation_matrix, generate_full_combinatoric_space
+        h, ths = holder_of(case)
+        sc = P.build_screen(case["raw"])
+        if k == "cmse":
+            put("calculate_mse", lambda: fb(calculate_mse(sc, h)))
+        else:
+            def cm():
+                m = correlation_matrix(sc, h)
+                return (np.asarray(m.values, dtype=float).tobytes(), [str(x) for x in m.index])
+            put("correlation_matrix", cm)
+            if sc.size:
+                sid0 = int(sc.unique_sample_ids[0])
+                put("full_space_ids", lambda: np.asarray(generate_full_combinatoric_space(sid0, sc).treatment_ids).tobytes())
+        out["inputs"] = (P.deep_snap(sc), [P.deep_snap(t) for t in ths])
+    return out
+
+
+def with_verbose(case, res, body):
+    """item 19: a case marked `verbose` runs under `vlib.common.verbose_logging()` (what -v/--verbose sets) with the same oracles, and
+    every output of its stream must be bit-identical to the run without verbose logging (outputs are functions of the inputs)"""
+    if not case.get("verbose"):
+        return body()
+    quiet = quick_results(case)
+    with common.verbose_logging():
+        out = body()
+        loud = quick_results(case)
+    for name in quiet:
+        if quiet[name] != loud.get(name):
+            if name == "inputs":
+                res.count("observed.inputs_differ_under_verbose_logging")      # purity is not a clause of C20 (item 14)
+                continue
+            res.fail("%s gives another result under verbose (DEBUG) logging than without it" % name, case, str(loud.get(name))[:160],
+                     str(quiet[name])[:160], signature="C20:verbose-logging")
+            break
+    return out
 
 
 def run_eval(case, res, lines, tmp):
+    return with_verbose(case, res, lambda: _run_eval(case, res, lines, tmp))
+
+
+def _run_eval(case, res, lines, tmp):
     from batchie.models.main import ModelEvaluation
     E, K = case["E"], case["K"]
     preds = np.array([[S.from_bits(b) for b in r] for r in case["preds"]], dtype=float).reshape(E, K)
@@ -274,6 +369,20 @@ def run_eval(case, res, lines, tmp):
             other.save_h5(fn)
             ev.save_h5(fn)
             ev2 = ModelEvaluation.load_h5(fn)
+            # load path: a file whose values include NaN, +-inf, -0.0 and unsorted data comes back value by value (a summary helper
+            # run on load must not rewrite them)
+            odd = np.array(preds, dtype=float, copy=True)
+            flat = odd.reshape(-1)
+            for pos, v in zip(range(0, flat.size, 2), [float("nan"), float("inf"), -float("inf"), -0.0, 5e-324, 1e308]):
+                flat[pos] = v
+            odd_obs = np.array(obs, dtype=float, copy=True)
+            odd_obs[0] = float("nan") if E % 2 else -float("inf")
+            ModelEvaluation(predictions=odd, observations=odd_obs, chain_ids=chains, sample_names=names).save_h5(fn + ".odd")
+            back = ModelEvaluation.load_h5(fn + ".odd")
+            if np.asarray(back.predictions).tobytes() != odd.tobytes() or np.asarray(back.observations).tobytes() != odd_obs.tobytes():
+                res.fail("an evaluation file with NaN / inf / -0.0 values does not reload value by value", case,
+                         np.asarray(back.predictions).reshape(-1)[:8].tolist(), odd.reshape(-1)[:8].tolist(), signature="C20:reload")
+            os.unlink(fn + ".odd")
             if lines is not None:
                 # tie of the model's save/load of an evaluation record (`loadEval (saveEval r)`, theorem C20_reload) to the real round trip
                 ntok = lambda a: ",".join(S.name_tok(str(x)) for x in a)  # noqa: E731
@@ -357,7 +466,7 @@ def gen_effects(rng, idx):
         tids.append(row)
         obs.append(rng.choice([rng.random(), rng.random(), 0.5, 0.25, 1.0, 0.0]))
     return {"kind": "effects", "idx": idx, "arity": arity, "sids": sids, "tids": tids, "obs": [fb(x) for x in obs], "mode": mode,
-            "layout": rng.choice(["c", "c", "f", "strided_ro", "negstride"])}
+            "layout": rng.choice(["c", "c", "f", "strided_ro", "negstride"]), "verbose": idx % 6 == 0 or mode in ("gap_collision", "wide_ids")}
 
 
 def ref_effect_map(arity, sids, tids, obs):
@@ -378,6 +487,10 @@ def ref_effect_map(arity, sids, tids, obs):
 
 
 def run_effects(case, res, lines):
+    return with_verbose(case, res, lambda: _run_effects(case, res, lines))
+
+
+def _run_effects(case, res, lines):
     from batchie.data import create_single_treatment_effect_map, create_single_treatment_effect_array
     from batchie.synergy import calculate_synergy
     a = case["arity"]
@@ -475,7 +588,8 @@ def run_effects(case, res, lines):
 
 # ============================================================================= calculate_mse / space / correlation
 
-def gen_model(rng, idx, kind_name):
+def gen_model(rng, idx, kind_name, n_th=None):
+    n_th_forced = n_th
     kind = "sdc" if rng.random() < 0.7 else "sdci"
     n_s = rng.randint(1, 4) if (kind_name != "space" or rng.random() < 0.2) else rng.randint(2, 4)
     n_t = rng.randint(1, 4)
@@ -485,8 +599,12 @@ def gen_model(rng, idx, kind_name):
     raw = P.gen_raw(rng, arity, n_s, n_t, n_max=10)
     if len(raw["snames"]) == 0:
         raw = P.gen_raw(rng, arity, n_s, n_t, n_max=10)
-    regime = rng.choice(["normal", "normal", "large", "tiny"])
+    regime = rng.choice(["normal", "normal", "large", "tiny"]) if n_th_forced is None else "normal"   # large holders: samples that really differ
     n_th = rng.randint(1, 3)
+    if n_th_forced is not None:
+        n_th = n_th_forced
+    elif rng.random() < 0.1:
+        n_th = rng.choice([15, 16, 17, 20, 33])      # averages over posterior samples in a large holder
     thetas = [P.gen_theta_case(rng, kind, n_s, n_t, regime) for _ in range(n_th)]
     d = max(thetas[0]["D"], 1)
     thetas = [P.gen_theta_case(rng, kind, n_s, n_t, regime) for _ in range(n_th)]
@@ -497,7 +615,8 @@ def gen_model(rng, idx, kind_name):
         for _ in range(3):
             chosen = set(rng.sample(range(n), k))
             tmp_masks.append([i in chosen for i in range(n)])
-    return {"kind": kind_name, "idx": idx, "model": kind, "raw": raw, "thetas": thetas, "tmp_masks": tmp_masks}
+    return {"kind": kind_name, "idx": idx, "model": kind, "raw": raw, "thetas": thetas, "tmp_masks": tmp_masks,
+            "verbose": idx % 5 == 0 or (n_th_forced is not None and n_th_forced in (16, 17, 33, 65))}
 
 
 def holder_of(case):
@@ -509,6 +628,10 @@ def holder_of(case):
 
 
 def run_cmse(case, res, lines):
+    return with_verbose(case, res, lambda: _run_cmse(case, res, lines))
+
+
+def _run_cmse(case, res, lines):
     from batchie.retrospective import calculate_mse
     h, ths = holder_of(case)
     sc = P.build_screen(case["raw"])
@@ -534,6 +657,10 @@ def run_cmse(case, res, lines):
 
 
 def run_space(case, res, lines):
+    return with_verbose(case, res, lambda: _run_space(case, res, lines))
+
+
+def _run_space(case, res, lines):
     from batchie.models.main import generate_full_combinatoric_space, correlation_matrix
     h, ths = holder_of(case)
     kind = case["model"]
@@ -598,7 +725,7 @@ def run_space(case, res, lines):
         except Exception as e:  # noqa
             res.fail("correlation_matrix raises when asked again", case, repr(e)[:200], "a matrix", signature="C20:object-reuse")
     supported = (a in (1, 2)) if kind == "sdc" else a == 2
-    if supported and not isinstance(corr, str) and sc.size >= 2:
+    if supported and not isinstance(corr, str) and sc.size >= 2 and len(ths) <= 8:
         run_space_temporaries(case, res, sc, h, ths)
     if not supported:
         return      # outside the quantifier of the prediction functions (C09): nothing is demanded
@@ -714,6 +841,113 @@ def run_space_temporaries(case, res, sc, h, ths):
                  signature="C20:temporaries")
 
 
+def gen_cli_eval(rng, idx):
+    arity = rng.choice([1, 2, 2])
+    n_s, n_t = rng.randint(1, 3), rng.randint(1, 4)
+    raw = P.gen_raw(rng, arity, n_s, n_t, n_max=8)
+    while len(raw["snames"]) < 2:
+        raw = P.gen_raw(rng, arity, n_s, n_t, n_max=8)
+    raw["mask"] = None        # evaluate_model wants a fully observed screen
+    chains = [[P.gen_theta_case(rng, "sdc", n_s, n_t, "normal", d=rng.choice([1, 2, 3])) for _ in range(rng.randint(1, 3))]
+              for _ in range(rng.randint(1, 3))]
+    d0 = chains[0][0]["D"]
+    chains = [[P.gen_theta_case(rng, "sdc", n_s, n_t, "normal", d=d0) for _ in ch] for ch in chains]
+    return {"kind": "cli_eval", "idx": idx, "raw": raw, "chains": chains, "verbose": True}
+
+
+def _call_main(mod, argv):
+    """the real `main()` of a batchie command line tool: argv patched, stderr silenced, logging state restored"""
+    import contextlib
+    import io
+    import logging
+    import sys
+    lg = logging.getLogger("batchie")
+    keep = (list(lg.handlers), lg.level, logging.root.manager.disable)
+    old = sys.argv
+    sys.argv = argv
+    try:
+        with contextlib.redirect_stderr(io.StringIO()), contextlib.redirect_stdout(io.StringIO()):
+            mod.main()
+    finally:
+        sys.argv = old
+        lg.handlers = keep[0]
+        lg.setLevel(keep[1])
+        logging.disable(keep[2])
+
+
+def run_cli_eval(case, res, lines):
+    """item 18: `batchie.cli.evaluate_model.main()` on real files, default and --verbose: row e of the saved evaluation is experiment e of
+    the screen (observation, sample name, and the prediction of every posterior sample for THAT experiment), the file reloads, and its
+    metrics are the definitions computed from the per-sample predictions"""
+    from batchie.cli import evaluate_model
+    from batchie.core import ThetaHolder
+    from batchie.data import Screen
+    from batchie.models.main import ModelEvaluation
+    tmp = tempfile.mkdtemp(prefix="c20cli_")
+    try:
+        sc0 = P.build_screen(case["raw"])
+        sfn = os.path.join(tmp, "screen.h5")
+        sc0.save_h5(sfn)
+        files, all_thetas = [], []
+        for ci, ch in enumerate(case["chains"]):
+            h = ThetaHolder(n_thetas=len(ch))
+            for c in ch:
+                h.add_theta(P.theta_from_case("sdc", dict(c, layout="c")))
+            fn = os.path.join(tmp, "chain%d.h5" % ci)
+            h.save_h5(fn)
+            files.append(fn)
+        sc = Screen.load_h5(sfn)                                    # what the command line tool will see
+        for fn in files:
+            all_thetas += list(ThetaHolder.load_h5(fn).thetas)
+        per = [np.asarray(t.predict_viability(sc), dtype=float) for t in all_thetas]
+        obs = np.asarray(sc.observations, dtype=float)
+        n, K = sc.size, len(per)
+        ascending = all(bool(np.all(np.diff(p) >= 0)) for p in per)
+        outs = {}
+        for mode in ("default", "verbose"):
+            out = os.path.join(tmp, "me_%s.h5" % mode)
+            argv = ["evaluate_model", "--screen", sfn, "--thetas"] + files + ["--output", out] + (["--verbose"] if mode == "verbose" else [])
+            try:
+                if mode == "verbose":
+                    with common.verbose_logging():
+                        _call_main(evaluate_model, argv)
+                else:
+                    _call_main(evaluate_model, argv)
+                me = ModelEvaluation.load_h5(out)
+            except Exception as e:  # noqa
+                res.fail("evaluate_model.main() (%s) raises on a fully observed screen and complete chain files" % mode, case, repr(e)[:200],
+                         "an evaluation file", signature="C20:entry-point")
+                return
+            Pm = np.asarray(me.predictions, dtype=float)
+            outs[mode] = (Pm.tobytes(), np.asarray(me.observations, dtype=float).tobytes(), [str(x) for x in me.sample_names])
+            if Pm.shape != (n, K):
+                res.fail("evaluate_model (%s): the saved predictions are not (experiments x posterior samples)" % mode, case, list(Pm.shape), [n, K],
+                         signature="C20:entry-point")
+                return
+            if np.asarray(me.observations, dtype=float).tobytes() != obs.tobytes() or [str(x) for x in me.sample_names] != [str(x) for x in sc.sample_names]:
+                res.fail("evaluate_model (%s): saved observations / sample names are not the screen's, row by row" % mode, case,
+                         np.asarray(me.observations).tolist()[:6], obs.tolist()[:6], signature="C20:entry-point")
+            for k in range(K):
+                if Pm[:, k].tobytes() != per[k].tobytes():
+                    res.fail("evaluate_model (%s): row e of the saved predictions is not the prediction for experiment e "
+                             "(rows no longer line up with the observations)" % mode, case,
+                             {"posterior_sample": k, "saved": Pm[:, k].tolist()[:8]}, per[k].tolist()[:8], signature="C20:entry-point-rows")
+                    break
+            want = fsum((float(per[k][e]) - float(obs[e])) ** 2 for e in range(n) for k in range(K)) / (n * K)
+            if not close(float(me.mse()), want, 1.0):
+                res.fail("evaluate_model (%s): the MSE of the saved evaluation is not the mean squared error over all (experiment, sample) pairs"
+                         % mode, case, float(me.mse()), want, signature="C20:mse")
+        if outs.get("default") != outs.get("verbose"):
+            res.fail("evaluate_model --verbose saves another evaluation than evaluate_model on the same files", case, "different", "identical",
+                     signature="C20:verbose-logging")
+        res.count("class.entry-point.evaluate_model")
+        res.count("class.verbose-logging.evaluate_model")
+        if not ascending:
+            res.count("class.verbose-logging.predictions_not_ascending")
+    finally:
+        shutil.rmtree(tmp, ignore_errors=True)
+
+
 def run_space_boundary(case, res, lines):
     """size boundaries of generate_full_combinatoric_space: mapping of `n_map` treatments (ids = positions, no control), arity 2:
     n_map = 1 -> factorial of a negative number (ValueError); 2 -> exactly one combination; 4472 -> 9 997 156 combinations (allowed,
@@ -816,6 +1050,8 @@ def _run(ctx, res):
             run_eval(case, res, lines, tmp if reload else None)
             res.evaluations += 1
             res.count("eval.chains.%s" % case["mode"])
+            if case["verbose"] and not case["bad"]:
+                res.count("class.verbose-logging.eval")
             res.count("eval.square" if case["E"] == case["K"] else "eval.nonsquare")
             res.count("eval.layout.%s" % case["layout"])
             if not case["bad"]:
@@ -827,6 +1063,8 @@ def _run(ctx, res):
                     res.count("class.instalments.save_twice_same_path")
                 if case["boundary"]:
                     res.count("class.boundary.eval_sizes_labels_names_127_257")
+                if case["blocks"] or case["boundary"]:
+                    res.count("class.size.eval_E_or_K_straddles_8_16_32_64_128")
                 if case["layout"] != "c":
                     res.count("class.memory_layout.eval")
                 if any(len(nm) >= 25 for nm in case["names"]):
@@ -853,6 +1091,8 @@ def _run(ctx, res):
         run_effects(case, res, lines)
         res.evaluations += 1
         res.count("effects.arity%d" % case["arity"])
+        if case["verbose"]:
+            res.count("class.verbose-logging.effects")
         singles = {}
         cols = set()
         for s, r in zip(case["sids"], case["tids"]):
@@ -904,11 +1144,17 @@ def _run(ctx, res):
         run_cmse(case, res, lines)
         res.evaluations += 1
         res.count("cmse.%s" % case["model"])
+        if case["verbose"]:
+            res.count("class.verbose-logging.cmse")
+        if len(case["thetas"]) >= 15:
+            res.count("class.size.holder_15_to_33.cmse")
     for i in range(ctx.scale(80, 1500, 300)):
         case = gen_model(ctx.subrng("space", i), i, "space")
         run_space(case, res, lines)
         res.evaluations += 1
         res.count("space.%s.arity%d" % (case["model"], case["raw"]["arity"]))
+        if case["verbose"]:
+            res.count("class.verbose-logging.space")
         res.count("class.input_mutation.space")
         if case["tmp_masks"]:
             res.count("class.temporaries.space")
@@ -919,6 +1165,8 @@ def _run(ctx, res):
             res.count("class.long_names.space")
         if case["raw"]["n_s"] >= 11:
             res.count("class.size.two_digit_names")
+        if len(case["thetas"]) >= 15:
+            res.count("class.size.holder_15_to_33.corr")
         if any(t.get("layout", "c") != "c" for t in case["thetas"]):
             res.count("class.memory_layout.space")
         if case["raw"].get("enc"):
@@ -927,6 +1175,19 @@ def _run(ctx, res):
             res.count("space.partially_observed")
         if len(set(case["raw"]["snames"])) >= 2:
             res.nontrivial.add(("space", i))
+    # averages over LARGE holders (sizes straddling the blocking factors 16 / 32 / 64), in every run
+    for size in (15, 16, 17, 20, 33, 40, 65):
+        for kind_name, fn in (("cmse", run_cmse), ("space", run_space)):
+            case = gen_model(ctx.subrng("bigholder", kind_name, size), 100000 + size, kind_name, n_th=size)
+            fn(case, res, lines)
+            res.evaluations += 1
+            res.count("class.size.holder_%d.%s" % (size, kind_name))
+            if case["verbose"]:
+                res.count("class.verbose-logging.%s" % kind_name)
+    for i in range(ctx.scale(10, 200, 60)):
+        case = gen_cli_eval(ctx.subrng("cli_eval", i), i)
+        run_cli_eval(case, res, lines)
+        res.evaluations += 1
     for n_map in (1, 2, 3, 4472, 4473):
         case = {"kind": "space_boundary", "idx": n_map, "n_map": n_map}
         run_space_boundary(case, res, lines)
@@ -960,3 +1221,5 @@ def replay(ctx, case, res):
         run_space(case, res, None)
     elif k == "space_boundary":
         run_space_boundary(case, res, None)
+    elif k == "cli_eval":
+        run_cli_eval(case, res, None)
